@@ -13,8 +13,10 @@ The run part of C13 (scopes around every feature/rule/scenario in real runs, rai
 failed run) is judged on the run-engine spec: see the marked place in run()."""
 import io
 import json
+import os
 import random
 import sys
+import time
 import warnings
 
 from vlib import trace
@@ -461,6 +463,7 @@ class Session(object):
 
 
 def run(chk):
+    t_start = time.time()
     ses = Session(chk)
     rnd = random.Random(chk.seed)
     seen = set()
@@ -505,6 +508,7 @@ def run(chk):
     chk.extra["histories_by_part"] = stats
     chk.extra["operations_by_kind"] = ses.by_op
     chk.extra["emitted_prediction_mismatches"] = ses.mismatching
+    chk.extra["api_part_wall_s"] = round(time.time() - t_start, 1)
     chk.extra["histories_predicted_to_hit_known_finding"] = kf_predicted
     for s in ses.samples:
         chk.sample(s)
@@ -524,7 +528,7 @@ def run(chk):
         from props import c13_run           # noqa: F401  pylint: disable=import-outside-toplevel
     except ImportError:
         c13_run = None
-    if c13_run is not None:
+    if c13_run is not None and not os.environ.get("VERIF_C13_API_ONLY"):
         c13_run.run_part(chk)
     # -----------------------------------------------------------------------------------------------------
 
